@@ -64,7 +64,7 @@ fn main() {
             let idx: u64 = args[4].parse().unwrap();
             let seed = engine::env_u64("VERIF_SEED", 1);
             let mut rng = prng::Prng::new(engine::run_seed(seed, scn.id(), idx));
-            let spec = scn.generate(&mut rng, tier);
+            let spec = engine::generate(scn.as_ref(), &mut rng, tier);
             if args.len() > 5 {
                 println!("{}", serde_json::to_string(&spec).unwrap());
             }
